@@ -179,6 +179,7 @@ fn main() {
     }
 
     let mut ctx = Ctx::new(tier, pid);
+    let mut scratch = Ctx::new(tier, pid);
     let mut f_ops = std::io::BufWriter::new(std::fs::File::create(outdir.join("ops.txt")).unwrap());
     let mut f_impl = std::io::BufWriter::new(std::fs::File::create(outdir.join("impl.txt")).unwrap());
     let mut samples: Vec<(String, String)> = Vec::new();
@@ -186,6 +187,7 @@ fn main() {
     let sample_every = (n / 6).max(1);
     for (i, op) in ops.iter().enumerate() {
         ctx.cur_op = i;
+        DRAIN_CALLS.with(|c| c.set(0));
         let stream = op.split(' ').next().unwrap_or("");
         let mname = stream.split('.').next().unwrap_or("");
         let res = match all.iter().find(|m| m.name() == mname) {
@@ -209,8 +211,35 @@ fn main() {
                 }
             }
         };
+        // The picture must not depend on HOW a target consumes the iterators it is handed: every op that made a
+        // recording target drain an iterator is run a second time with the targets consuming by internal iteration,
+        // after a first next(), or by size_hint + nth (common.rs `drain_iter`); the result line must be the same.
+        let far0 = far_pixels_take();
+        let drained = DRAIN_CALLS.with(|c| c.replace(0));
+        if drained > 0 && !res.starts_with("panic:") {
+            if let Some(m) = all.iter().find(|m| m.name() == mname) {
+                let mode = 1 + (i % 3) as u32;
+                CONSUME_MODE.with(|c| c.set(mode));
+                PROTOCOL_FAULT.with(|f| *f.borrow_mut() = None);
+                scratch.failures.clear();
+                let sc = &mut scratch;
+                let again = std::panic::catch_unwind(std::panic::AssertUnwindSafe(|| m.execute(op, sc)));
+                CONSUME_MODE.with(|c| c.set(0));
+                alloc_arm(false);
+                DRAIN_CALLS.with(|c| c.set(0));
+                let _ = far_pixels_take();
+                let fault = PROTOCOL_FAULT.with(|f| f.borrow_mut().take());
+                let same = matches!(&again, Ok(s) if *s == res);
+                ctx.count(&format!("consumption-mode-{}-reruns", mode));
+                ctx.expect(same, "target-consumption-mode-changes-the-result", || {
+                    let what = match &again { Ok(s) => { let mut t = s.clone(); t.truncate(160); t } Err(_) => "panic".to_string() };
+                    format!("mode {} (1 for_each, 2 next then for_each, 3 size_hint + nth): {}", mode, what)
+                });
+                ctx.expect(fault.is_none(), "iterator-size-hint-does-not-bracket", || fault.clone().unwrap_or_default());
+            }
+        }
         // pixels an "unbounded" (+-2^20) recording target had to drop: the picture oracles of the op did not see them
-        let (far, fx, fy) = far_pixels_take();
+        let (far, fx, fy) = far0;
         if far > 0 {
             if op_is_display_scale(op) {
                 ctx.expect(false, "pixel-outside-the-recording-range", || {
